@@ -9,6 +9,7 @@ import (
 	"golang.org/x/tools/go/ssa"
 
 	"saoverif/internal/core"
+	"saoverif/internal/prog"
 )
 
 // ---------------------------------------------------------------- in-place mutation of bytes that are not the function's own
@@ -26,151 +27,190 @@ import (
 // sorts.
 func ruleNoInPlace(r *core.Run, id string, kind string, pkgPrefixes ...string) {
 	nFuncs, nSrc := 0, 0
-	for _, f := range r.P.SortedFuncs(r.ConsensusFuncs()) {
-		if r.P.IsGenerated(f) || len(f.Blocks) == 0 {
-			continue
-		}
-		name := r.P.Name(f)
-		in := len(pkgPrefixes) == 0
-		for _, p := range pkgPrefixes {
-			if strings.HasPrefix(name, p) {
-				in = true
+	// slices handed on to other module functions keep their taint: the parameter that receives one is a source in
+	// the callee (two rounds: handler -> helper -> helper's helper)
+	paramTaint := map[*ssa.Parameter]string{}
+	reported := map[ssa.Instruction]bool{}
+	for round := 0; round < 3; round++ {
+		nFuncs, nSrc = 0, 0
+		grew := false
+		for _, f := range r.P.SortedFuncs(r.ConsensusFuncs()) {
+			if r.P.IsGenerated(f) || len(f.Blocks) == 0 {
+				continue
 			}
-		}
-		if !in {
-			continue
-		}
-		nFuncs++
-		res := r.Resolver(f)
-		tainted := map[ssa.Value]string{}
-		isSource := func(v ssa.Value) string {
-			switch kind {
-			case "store":
-				c, ok := v.(*ssa.Call)
-				if !ok {
-					return ""
+			name := r.P.Name(f)
+			in := len(pkgPrefixes) == 0
+			for _, p := range pkgPrefixes {
+				if strings.HasPrefix(name, p) {
+					in = true
 				}
-				if _, isSl := c.Type().Underlying().(*types.Slice); !isSl {
-					return ""
-				}
-				n, _ := res.CalleeName(&c.Call)
-				if (strings.HasSuffix(n, ".Get") || strings.HasSuffix(n, ".Value") || strings.HasSuffix(n, ".Key")) &&
-					(strings.Contains(n, "Store") || strings.Contains(n, "Iterator") || strings.Contains(n, "KVStore")) {
-					return "the bytes handed back by " + n
-				}
-			case "msg":
-				u, ok := v.(*ssa.UnOp)
-				if !ok || u.Op != token.MUL {
-					return ""
-				}
-				if _, isSl := u.Type().Underlying().(*types.Slice); !isSl {
-					return ""
-				}
-				base := u.X
-				path := ""
-				for {
-					fa, ok := base.(*ssa.FieldAddr)
+			}
+			if !in {
+				continue
+			}
+			nFuncs++
+			res := r.Resolver(f)
+			tainted := map[ssa.Value]string{}
+			isSource := func(v ssa.Value) string {
+				switch kind {
+				case "store":
+					c, ok := v.(*ssa.Call)
 					if !ok {
-						break
+						return ""
 					}
-					path = "." + fieldNameT(fa.X.Type(), fa.Field) + path
-					base = fa.X
+					if _, isSl := c.Type().Underlying().(*types.Slice); !isSl {
+						return ""
+					}
+					n, _ := res.CalleeName(&c.Call)
+					if (strings.HasSuffix(n, ".Get") || strings.HasSuffix(n, ".Value") || strings.HasSuffix(n, ".Key")) &&
+						(strings.Contains(n, "Store") || strings.Contains(n, "Iterator") || strings.Contains(n, "KVStore")) {
+						return "the bytes handed back by " + n
+					}
+				case "msg":
+					u, ok := v.(*ssa.UnOp)
+					if !ok || u.Op != token.MUL {
+						return ""
+					}
+					if _, isSl := u.Type().Underlying().(*types.Slice); !isSl {
+						return ""
+					}
+					base := u.X
+					path := ""
+					for {
+						fa, ok := base.(*ssa.FieldAddr)
+						if !ok {
+							break
+						}
+						path = "." + fieldNameT(fa.X.Type(), fa.Field) + path
+						base = fa.X
+					}
+					if p, ok := base.(*ssa.Parameter); ok && path != "" {
+						tn := shortTypeName(p.Type())
+						if strings.Contains(tn, ".Msg") || strings.Contains(tn, "Proposal") {
+							return "the request field " + p.Name() + path
+						}
+					}
 				}
-				if p, ok := base.(*ssa.Parameter); ok && path != "" {
-					tn := shortTypeName(p.Type())
-					if strings.Contains(tn, ".Msg") || strings.Contains(tn, "Proposal") {
-						return "the request field " + p.Name() + path
-					}
+				return ""
+			}
+			// sources
+			for _, prm := range f.Params {
+				if w := paramTaint[prm]; w != "" {
+					tainted[prm] = w
 				}
 			}
-			return ""
-		}
-		// sources
-		for _, b := range f.Blocks {
-			for _, ins := range b.Instrs {
-				if v, ok := ins.(ssa.Value); ok {
-					if w := isSource(v); w != "" {
-						tainted[v] = w
-						nSrc++
-					}
-				}
-			}
-		}
-		if len(tainted) == 0 {
-			continue
-		}
-		// propagate
-		for changed := true; changed; {
-			changed = false
 			for _, b := range f.Blocks {
 				for _, ins := range b.Instrs {
-					v, ok := ins.(ssa.Value)
-					if !ok || tainted[v] != "" {
-						continue
+					if v, ok := ins.(ssa.Value); ok {
+						if w := isSource(v); w != "" {
+							tainted[v] = w
+							nSrc++
+						}
 					}
-					from := ""
-					switch x := ins.(type) {
-					case *ssa.Phi:
-						for _, e := range x.Edges {
-							if tainted[e] != "" {
-								from = tainted[e]
+				}
+			}
+			if len(tainted) == 0 {
+				continue
+			}
+			// propagate
+			for changed := true; changed; {
+				changed = false
+				for _, b := range f.Blocks {
+					for _, ins := range b.Instrs {
+						v, ok := ins.(ssa.Value)
+						if !ok || tainted[v] != "" {
+							continue
+						}
+						from := ""
+						switch x := ins.(type) {
+						case *ssa.Phi:
+							for _, e := range x.Edges {
+								if tainted[e] != "" {
+									from = tainted[e]
+								}
+							}
+						case *ssa.Slice:
+							from = tainted[x.X]
+						case *ssa.ChangeType:
+							from = tainted[x.X]
+						case *ssa.MakeInterface:
+							from = tainted[x.X]
+						case *ssa.Call:
+							if bi, isB := x.Call.Value.(*ssa.Builtin); isB && bi.Name() == "append" && len(x.Call.Args) > 0 {
+								from = tainted[x.Call.Args[0]]
 							}
 						}
-					case *ssa.Slice:
-						from = tainted[x.X]
-					case *ssa.ChangeType:
-						from = tainted[x.X]
-					case *ssa.MakeInterface:
-						from = tainted[x.X]
-					case *ssa.Call:
-						if bi, isB := x.Call.Value.(*ssa.Builtin); isB && bi.Name() == "append" && len(x.Call.Args) > 0 {
-							from = tainted[x.Call.Args[0]]
+						if from != "" {
+							tainted[v] = from
+							changed = true
 						}
-					}
-					if from != "" {
-						tainted[v] = from
-						changed = true
 					}
 				}
 			}
-		}
-		// sinks
-		k := 0
-		report := func(at ssa.Instruction, how, src string) {
-			k++
-			key := core.Key(id, r.KeyName(f), fmt.Sprintf("in-place write#%d", k))
-			msg := ""
-			if kind == "store" {
-				msg = fmt.Sprintf("%s writes into %s (%s): the store's cache layers hand back the slice they hold, so this changes the cached copy of committed state immediately, in this process only, and is not undone when the transaction's cache branch is dropped (failed or simulated transaction) — replicas that did not see that transaction, or that restarted, read a different value", r.P.Name(f), src, how)
-			} else {
-				msg = fmt.Sprintf("%s writes into %s (%s) after the request was authenticated: the slice may share its backing array with the signed request (append re-uses spare capacity), so what is stored afterwards is no longer what the owner signed", r.P.Name(f), src, how)
-			}
-			r.Violate(id, key, r.P.Pos(at.Pos()), msg)
-		}
-		for _, b := range f.Blocks {
-			for _, ins := range b.Instrs {
-				switch x := ins.(type) {
-				case *ssa.Store:
-					if ia, ok := x.Addr.(*ssa.IndexAddr); ok && tainted[ia.X] != "" {
-						report(x, "element assignment", tainted[ia.X])
-					}
-				case ssa.CallInstruction:
-					cc := x.Common()
-					if bi, isB := cc.Value.(*ssa.Builtin); isB {
-						if bi.Name() == "copy" && len(cc.Args) > 0 && tainted[cc.Args[0]] != "" {
-							report(x, "copy into it", tainted[cc.Args[0]])
-						}
+			// hand-on: a tainted slice passed to a module function taints that parameter
+			for _, b := range f.Blocks {
+				for _, ins := range b.Instrs {
+					ci, ok := ins.(ssa.CallInstruction)
+					if !ok || ci.Common().IsInvoke() {
 						continue
 					}
-					n, _ := res.CalleeName(cc)
-					if strings.HasPrefix(n, "sort.") && len(cc.Args) > 0 && tainted[cc.Args[0]] != "" {
-						switch n {
-						case "sort.Strings", "sort.Ints", "sort.Float64s", "sort.Slice", "sort.SliceStable", "sort.Sort", "sort.Stable":
-							report(x, n+" sorts in place", tainted[cc.Args[0]])
+					g := ci.Common().StaticCallee()
+					if g == nil || len(g.Blocks) == 0 || g.Pkg == nil || !prog.InModule(g.Pkg.Pkg.Path()) {
+						continue
+					}
+					for i, a := range ci.Common().Args {
+						if w := tainted[a]; w != "" && i < len(g.Params) && paramTaint[g.Params[i]] == "" {
+							paramTaint[g.Params[i]] = w + " (handed to " + r.P.Name(g) + ")"
+							grew = true
 						}
 					}
 				}
 			}
+			// sinks
+			k := 0
+			report := func(at ssa.Instruction, how, src string) {
+				k++
+				if reported[at] {
+					return
+				}
+				reported[at] = true
+				key := core.Key(id, r.KeyName(f), fmt.Sprintf("in-place write#%d", k))
+				msg := ""
+				if kind == "store" {
+					msg = fmt.Sprintf("%s writes into %s (%s): the store's cache layers hand back the slice they hold, so this changes the cached copy of committed state immediately, in this process only, and is not undone when the transaction's cache branch is dropped (failed or simulated transaction) — replicas that did not see that transaction, or that restarted, read a different value", r.P.Name(f), src, how)
+				} else {
+					msg = fmt.Sprintf("%s writes into %s (%s) after the request was authenticated: the slice may share its backing array with the signed request (append re-uses spare capacity), so what is stored afterwards is no longer what the owner signed", r.P.Name(f), src, how)
+				}
+				r.Violate(id, key, r.P.Pos(at.Pos()), msg)
+			}
+			for _, b := range f.Blocks {
+				for _, ins := range b.Instrs {
+					switch x := ins.(type) {
+					case *ssa.Store:
+						if ia, ok := x.Addr.(*ssa.IndexAddr); ok && tainted[ia.X] != "" {
+							report(x, "element assignment", tainted[ia.X])
+						}
+					case ssa.CallInstruction:
+						cc := x.Common()
+						if bi, isB := cc.Value.(*ssa.Builtin); isB {
+							if bi.Name() == "copy" && len(cc.Args) > 0 && tainted[cc.Args[0]] != "" {
+								report(x, "copy into it", tainted[cc.Args[0]])
+							}
+							continue
+						}
+						n, _ := res.CalleeName(cc)
+						if strings.HasPrefix(n, "sort.") && len(cc.Args) > 0 && tainted[cc.Args[0]] != "" {
+							switch n {
+							case "sort.Strings", "sort.Ints", "sort.Float64s", "sort.Slice", "sort.SliceStable", "sort.Sort", "sort.Stable":
+								report(x, n+" sorts in place", tainted[cc.Args[0]])
+							}
+						}
+					}
+				}
+			}
+		}
+		if !grew {
+			break
 		}
 	}
 	r.Floor("inplace_"+kind+"_functions_scanned", nFuncs, 3)
